@@ -630,7 +630,7 @@ def compare(c, io, drv):
     if c["entry"] == "cascade":
         return _compare_cascade(c, io, drv)
     out = _compare_call(c, io, drv)
-    if out and not io.get("isolated") and _ISO_BUDGET[0] > 0:
+    if any(k == "spec" for k, _ in out) and not io.get("isolated") and _ISO_BUDGET[0] > 0:
         _ISO_BUDGET[0] -= 1
         # does the call fail on its own?  run it again as the only call of a process with freshly imported
         # audiolazy: a disagreement that is gone there was produced by state that EARLIER cases of this run left
@@ -1032,6 +1032,9 @@ def _gen_long(rng, tier, scale):
 
 
 def generate(rng, tier, scale=1):
+    # the process every history is forked from is started now, while this process is still small (a fork copies the
+    # page tables: forked after tens of thousands of cases exist, every child costs 10x more)
+    H._zygote_start()
     cases = []
     quick = tier == "quick"
     if scale == 1:
